@@ -80,6 +80,11 @@ CLAIMED = {
    text="For a template sizing output k in {0,1} with min_utxo and paying `fees`, resolve_tx (<= 5 passes) is executed from MIR on a fresh Compiler and on one whose latest_tx_body is arbitrary (absent, or a body with 0..2 arbitrary outputs): both runs end Ok with structurally equal payload, hash and fee terms, or Err of the same kind, on every path (z3 unsat per obligation). Bounded: one field of state (the only one compile() writes), templates of two outputs without inputs, max_optimize_rounds = 3.",
    note="CBOR encoders / digests are injective uninterpreted functions and encoded lengths uninterpreted: a difference between two Ok outcomes is reported only when the native replay binary reproduces it with a concrete earlier template; Ok-vs-Err differences are definite.",
    design="§3 C20, §A.7"),
+ "C17": dict(
+   technique="symbolic execution of the MIR of the interface emitter (bin/tx3c: tii::infer_tx_params_schema, tii::infer_env_schema) and of the analyzer / lowering path that names IR parameters (Scope::track_param_var / track_env_var, <Identifier as IntoLower>::into_lower, find_params) on one symbolic identifier (mirsym -> z3)",
+   text="For every identifier of 1..3 characters over the grammar's alphabet ([A-Za-z_][A-Za-z0-9_]*) used as a transaction parameter or as an environment entry, the key under which the emitted interface declares it equals, byte for byte, the key find_params reports for a use of it in the lowered IR; two parameters are declared separately exactly when the IR tells them apart (z3 unsat per obligation). Partial: parties, the dotfile profile values, the embedded IR bytes and the JSON serialisation of the TII file are not covered.",
+   note="serde_json Map / to_value / from_value are models; the analyzer hands the source spelling to track_param_var / track_env_var (read, not executed: TxDef::analyze needs the whole scope chain).",
+   design="§A.8"),
 }
 
 NA = {
